@@ -488,7 +488,7 @@ pub extern "C" fn c11_churn_4() {
 #[no_mangle]
 pub extern "C" fn c17_access_threads() {
     let shared = Arc::new(ArcSwap::new(mk(0)));
-    on_thread(2, || drop(shared.load()));
+    on_thread(2, || drop(ArcSwap::load(&shared)));
     let depth = nondet(1);
     assume(depth < 3);
     let m1 = Map::new(&*shared, |o: &Outer| &o.inner);
